@@ -42,6 +42,12 @@ CLAIMED = {
             "partial: that the real bodies only write below their TemporaryDirectory is what the differential run observes (not a theorem about the code); shutil.rmtree and Pool.terminate behave as documented."),
     'C20': ("band_terminates (+ fuel irrelevance), band_multiset, band_sub, band_cutoff, band_nodup, band_counter, band_size (ordered field), load_save (incl. empty key); populations 0..2000 with the shuffle replaced by a harness-chosen permutation, exact comparison when the step is dyadic, predicates otherwise (plus an exact Fraction re-run), counter files.",
             "float accumulator vs rationals outside the dyadic stream (predicates only there); parseInt models -?[0-9]+ only."),
+    'C10': ("imap_eq_map, chunk_independent, filter_order, filter_sublist, drop_iff_no_cue, keep_eq_remove_compl, map_id_eq_keep, select_idem/keep_idem/remove_idem, constructor_table, malformed_raises, seps_match_source (separators regenerated from the source); files of 0-300 events x all rule kinds x n_jobs 1..8 x chunksize, output compared in order with the driver, the four laws also as implementation pairs.",
+            "independence of n_jobs rests on the ordering guarantee of multiprocessing.Pool.imap (trusted; sampled for n_jobs 1..8); one malformed line per file (a rare CPython Pool.terminate deadlock with many simultaneous worker exceptions is outside the property, see DESIGN §4)."),
+    'C15': ("conventions_agree (separators/header literals of writer, reader, filter, creator regenerated from the source), create_tokens_wf, filter_preserves_tokens, writer_reader_learner, writer_count, learner_activation_consistent; end-to-end pipelines corpus -> create_event_file -> filter_event_file -> cues_outcomes -> learner -> activation through the public API, every hand-over compared stage by stage with the stage models and the model-only chain compared with the final weights/activations.",
+            "partial: the single end-to-end `pipeline` theorem is not assembled in Lean (the stage models of C09/C10/C07 carry separate copies of splitOn); the interfaces are proved, the composition is sampled on the real code; trusted items of C01, C07, C09, C10, C11, C12 apply."),
+    'C18': ("nom_eq_cov, var_zero_iff_const, reject_iff_const, nonfinite_rejected, raises_iff, corr_eq_pearson (over the reals), cell_sq_and_sign, cells_independent(_perm), kernel_schedule_independent, correlation_schedule_independent, layout_irrelevant; integer and float matrices in C/Fortran/strided layouts x n_jobs x chunksize: r^2 and sign vs exact rationals (2^-40), bit-identity across layouts/threads/chunks, the scipy reference, degenerate columns -> exception class. KNOWN-FINDING F12 (overflow/underflow columns).",
+            "the square root is irrational: value comparison |r^2 - nom^2/den^2| <= 2^-40 in Fraction arithmetic; rounding in np.mean/np.std; generators stay inside |x| <= 9 resp. N(0,1) except the extreme_range stream of F12."),
     'C13': ("row_depends_only, rename_equivariant, cue_perm, affine, linear_part, lambda_homogeneous, beta2_zero, alpha_zero about rwLearn, transported to the implementations by C01; every law also run as a metamorphic relation between 2-3 runs of the real learners, exact in the dyadic domain.",
             "IEEE-754 rounding outside the exact-dyadic domain (2^-30 relative tolerance there)."),
 }
